@@ -132,6 +132,21 @@ Proof.
   intros cwd X abs raw H. unfold wild_dir, spec_dir. apply resolve_join. exact H.
 Qed.
 
+Lemma wild_listing_spec : forall ds cwd X abs raw, nd X ->
+  wild_listing Repaired ds cwd (absr X) abs raw = spec_listing ds X abs raw.
+Proof.
+  intros ds cwd X abs raw H. unfold wild_listing, spec_listing, wild_base.
+  rewrite (wild_dir_spec cwd X abs raw H), (resolve_join cwd X abs [] H).
+  rewrite (canon_from_plain (spec_base X abs) [] nd_nil), app_nil_r. reflexivity.
+Qed.
+
+Lemma spec_listing_lookup : forall ds X abs raw fl,
+  spec_listing ds X abs raw = Some fl -> lookup ds (spec_dir X abs raw) = Some fl.
+Proof.
+  intros ds X abs raw fl H. unfold spec_listing in H.
+  destruct (walk_ok ds (spec_base X abs) (pynorm raw)); [exact H|discriminate].
+Qed.
+
 Lemma spec_target_nd : forall X abs raw, nd X -> nd (spec_target X abs raw).
 Proof.
   intros X abs raw H. unfold spec_target. cbv zeta.
@@ -547,9 +562,9 @@ Section Sim.
           repeat split; auto; try apply R2. lia.
         * destruct IH as [E2 N]. rewrite E2. auto.
       + destruct Hp as [E1 N]. rewrite E1. simpl. auto.
-    - cbv zeta. rewrite (wild_dir_spec cwd self abs raw Hself).
-      destruct (lookup ds (spec_dir self abs raw)) as [fl|] eqn:EL.
-      + pose proof (sim_each rc rs bound Hrec fl (fun q Hq => Hds _ fl q EL Hq)
+    - cbv zeta. rewrite (wild_dir_spec cwd self abs raw Hself), (wild_listing_spec ds cwd self abs raw Hself).
+      destruct (spec_listing ds self abs raw) as [fl|] eqn:EL.
+      + pose proof (sim_each rc rs bound Hrec fl (fun q Hq => Hds _ fl q (spec_listing_lookup ds self abs raw fl EL) Hq)
                       (resolve cwd (absr self)) (flush s) seen (Rel'_flush s seen HR) Hlt) as Hp.
         unfold post in Hp. destruct (each_file rc _ fl (flush s)) as [s1|e].
         * destruct Hp as (seen1 & l1 & E1 & R1 & F1 & U1). rewrite E1.
@@ -712,7 +727,7 @@ Section BatchFile.
       destruct (Hrc _ _ _ (Inv_flush s HI) (pending_flush s) E1) as [HI1 HP1].
       apply (IH (fun x Hx => Hincl x (or_intror Hx)) (set_cur (resolve cwd self) s1) s'); auto.
       apply Inv_set_cur; auto.
-    - cbv zeta in HE. destruct (lookup ds (wild_dir m cwd self abs raw)) as [fl|]; [|discriminate].
+    - cbv zeta in HE. destruct (wild_listing m ds cwd self abs raw) as [fl|]; [|discriminate].
       destruct (each_file rc (resolve cwd self) fl (flush s)) as [s1|e] eqn:E1; [|discriminate].
       assert (cur (flush s) = resolve cwd self) as HCf by (unfold flush; destruct (pending s); exact HC).
       destruct (inv_each rc Hrc _ fl _ _ (Inv_flush s HI) (pending_flush s) HCf E1) as (HI1 & HP1 & HC1).
